@@ -157,7 +157,7 @@ PROPS = {
         "timeout": 1500,
     },
     "C15": {
-        "lean_modules": ["JrpcProofs.Props.C15", "JrpcProofs.Props.C06", "JrpcProofs.Facts.Cancel", "JrpcProofs.Facts.Corr", "JrpcProofs.Facts.Params"],
+        "lean_modules": ["JrpcProofs.Props.C15", "JrpcProofs.Props.C06", "JrpcProofs.Facts.Cancel", "JrpcProofs.Facts.Corr", "JrpcProofs.Facts.Params", "JrpcProofs.Facts.Reverse"],
         "assumptions": [
             "the goroutine model (main loop, reader, executor, forwarder, pinger, response writers) is tied by regenerated skeletons and by the goroutine profile (pprof labels) after each scenario, not by trace replay",
             "handleWS closes the socket after handleWsConn returns; a blocked NextReader then fails; the handlers return once cancelled (reaction time is a scenario parameter)",
